@@ -320,14 +320,19 @@ def c02_e(ctx: Ctx):
                 out.append(ctx.viol(R, fi, mdef, f"candidates for an abbreviated id are taken from {canon(v.generators[0].iter)}, not from the directory listing"))
             else:
                 out.append(ctx.viol(R, fi, mdef, f"candidates are selected by `{cond}`, not by `id_.startswith({idp})`: an abbreviation matches ids it is not a prefix of"))
+        else:
+            out.append(ctx.inc(R, fi, mdef, f"candidates for an abbreviated id are computed as {canon(v)[:50]}: not the recognised `[i for i in <listing> if i.startswith({idp})]`, "
+                               "cannot show that exactly the listed ids with that prefix are considered"))
+    if colls and not matches:
+        out.append(ctx.inc(R, fi, fi.node, "definition of the candidate list for abbreviated ids not found"))
     return out
 
 
 @rule("C02-f")
 def c02_f(ctx: Ctx):
     """Id / prefix resolution uses the directory listing, never an enumeration of the state point cache (same obligation as C08-a)."""
-    from .c08 import c08_a
-    res = c08_a(ctx)
+    from .c08 import c08_a, c08_e
+    res = c08_a(ctx) + c08_e(ctx)
     for r in res:
         r.rule = "C02-f"
     return res
